@@ -716,3 +716,81 @@ func ruleC06R6(c *Ctx) {
 	c.floor("C06.R6", "functions the permanent key slice flows through", nFns, 4)
 	c.ok("C06.R6", nil, "the permanent key values are not rewritten", 0, fmt.Sprintf("followed through %d functions, %d uses, no element store", nFns, nUses))
 }
+
+// ---- C06.R7 (F3, added after seed c06h): pipelines are constructed one at a time. The constructor of a pipeline
+// (byKeySetOrchestrator.newPipeline) builds the tag of the key set in the orchestrator's single TagBuilder, whose scratch
+// buffer is shared; it is the createObject callback of the GlobalCachedMap, which the map documents as "called within
+// global mutex". Every call of the function value held in GlobalCachedMap.createObject therefore happens with
+// globalMutex held — constructing outside the lock lets two connections that meet two new key sets at once build their
+// tags in the same buffer, and a pipeline keeps a tag made of another key set's values for its lifetime.
+func init() {
+	register("C06", "C06.R7", ruleC06R7)
+}
+
+func ruleC06R7(c *Ctx) {
+	const fCreate = "util/localcachedmap.GlobalCachedMap.createObject"
+	mutexClass := func(s ssa.CallInstruction) lockKind {
+		f := s.Common().StaticCallee()
+		if f == nil || len(s.Common().Args) == 0 || !strings.HasSuffix(fieldOf(s.Common().Args[0]), "GlobalCachedMap.globalMutex") {
+			return lockNone
+		}
+		switch extName(f) {
+		case "(*sync.Mutex).Lock":
+			return lockAcquireW
+		case "(*sync.Mutex).Unlock":
+			return lockRelease
+		}
+		return lockNone
+	}
+	n := 0
+	for _, fn := range c.P.universe {
+		if relPkg(fnPkgPath(fn)) != "util/localcachedmap" {
+			continue
+		}
+		var states map[ssa.Instruction]int
+		for _, s := range callsIn(fn) {
+			if s.Common().IsInvoke() || s.Common().StaticCallee() != nil {
+				continue
+			}
+			if !strings.HasSuffix(normGeneric(fieldOf(s.Common().Value)), "GlobalCachedMap.createObject") {
+				continue
+			}
+			n++
+			if states == nil {
+				states = c.lockStatesR(fn, mutexClass)
+			}
+			_, isGo := s.(*ssa.Go)
+			c.check(!isGo && states[s] == 2, "C06.R7", fn, "the pipeline constructor runs under the global map's mutex", s.Pos(),
+				"createObject is called between globalMutex.Lock and Unlock",
+				"the constructor callback runs without the global mutex: two new key sets met at the same moment build their tags in the orchestrator's one scratch buffer, and a pipeline keeps another key set's tag")
+		}
+	}
+	_ = fCreate
+	c.floor("C06.R7", "calls of GlobalCachedMap.createObject", n, 1)
+}
+
+// normGeneric drops the type arguments of an instantiated generic type from a field name
+func normGeneric(s string) string {
+	for {
+		i := strings.Index(s, "[")
+		if i < 0 {
+			return s
+		}
+		depth, j := 0, i
+		for ; j < len(s); j++ {
+			if s[j] == '[' {
+				depth++
+			}
+			if s[j] == ']' {
+				depth--
+				if depth == 0 {
+					break
+				}
+			}
+		}
+		if j >= len(s) {
+			return s
+		}
+		s = s[:i] + s[j+1:]
+	}
+}
